@@ -131,18 +131,24 @@ def run(ctx: Ctx) -> None:
     qexp = defs.expand(ast.Name(id=qname, ctx=ast.Load()), inside_stmt, depth=2, stop=("col_left",))
     okround = False
     why = f"q expands to `{canon(qexp)[:140]}`"
-    inner = qexp
-    if isinstance(inner, ast.Call) and isinstance(inner.func, ast.Attribute) and inner.func.attr == "astype":
-        inner = inner.func.value
-    if isinstance(inner, ast.Call) and (dotted(inner.func) or "") in ("np.rint", "numpy.rint", "np.round", "np.around") and len(inner.args) == 1:
-        pl = poly(inner.args[0])
-        atoms = sorted(pl.atoms())
-        if len(pl.terms) == 2 and all(c == 1 for c in pl.terms.values()):
-            subs = [a for a in atoms if a.startswith(f"{L}['disparity_map'].data[")]
-            others = [a for a in atoms if a not in subs]
-            if len(subs) == 1 and len(others) == 1 and subs[0] == f"{L}['disparity_map'].data[({row}, {others[0]})]":
-                okround = True
-    ctx.ob("C07.ROUND", V, inside_stmt, f"correspondent {qname} = {canon(qexp)[:120]}", okround, expected=f"np.rint(p + {L}['disparity_map'].data[{row}, p])", detail="the correspondent column must be p + dL(p) rounded to the nearest integer (np.rint), from the checked dataset's own disparities" + ("" if okround else "; " + why))
+    # q = p + rint(dL(p)): the *disparity* is rounded, then added to the column.  Rounding the sum, rint(p + dL(p)), is
+    # the same for every non-half disparity but rounds x.5 half-to-even on the absolute column, i.e. depending on parity.
+    def _strip_int(n: ast.AST) -> ast.AST:
+        while isinstance(n, ast.Call) and ((isinstance(n.func, ast.Attribute) and n.func.attr == "astype") or (dotted(n.func) or "") in ("int", "np.int64")):
+            n = n.func.value if isinstance(n.func, ast.Attribute) and n.func.attr == "astype" else n.args[0]
+        return n
+
+    inner = _strip_int(qexp)
+    if isinstance(inner, ast.BinOp) and isinstance(inner.op, ast.Add):
+        for a, b in ((inner.left, inner.right), (inner.right, inner.left)):
+            b = _strip_int(b)
+            if isinstance(b, ast.Call) and (dotted(b.func) or "") in ("np.rint", "numpy.rint", "np.round", "np.around") and len(b.args) == 1:
+                pa = canon(a)
+                if canon(b.args[0]) == f"{L}['disparity_map'].data[({row}, {pa})]":
+                    okround = True
+    elif isinstance(inner, ast.Call) and (dotted(inner.func) or "") in ("np.rint", "numpy.rint", "np.round", "np.around"):
+        why += " -- the sum column + disparity is rounded (half-to-even on the absolute column: parity-dependent for half-pixel disparities)"
+    ctx.ob("C07.ROUND", V, inside_stmt, f"correspondent {qname} = {canon(qexp)[:120]}", okround, expected=f"p + np.rint({L}['disparity_map'].data[{row}, p])", detail="the correspondent column must be p + round(dL(p)): the disparity of the checked dataset rounded to the nearest integer (np.rint), then added to the column" + ("" if okround else "; " + why))
 
     # --- THRESHOLD and the confidence band
     inv_defs = [d for d in defs.all_defs("invalid")]
@@ -301,7 +307,9 @@ MUTANTS = [
     {"id": "eq-nan-to-inf-by-nan_to_num-assigned", "kind": "equiv", "file": V, "old": "            left_disp[np.isnan(left_disp)] = np.inf\n", "new": "            left_disp = np.nan_to_num(left_disp, nan=np.inf)\n"},
     {"id": "outside-and", "file": V, "old": "outside_right = np.where((col_right < 0) | (col_right >= nb_col))", "new": "outside_right = np.where((col_right < 0) & (col_right >= nb_col))"},
     {"id": "threshold-ge", "file": V, "old": "invalid = np.abs(right_disp + left_disp) > self._threshold", "new": "invalid = np.abs(right_disp + left_disp) >= self._threshold"},
-    {"id": "rint-to-floor", "file": V, "old": "col_right = np.rint(col_right).astype(int)", "new": "col_right = np.floor(col_right).astype(int)"},
+    {"id": "rint-to-floor", "file": V, "old": 'col_right = col_left + np.rint(dataset_left["disparity_map"].data[row, col_left]).astype(int)', "new": 'col_right = col_left + np.floor(dataset_left["disparity_map"].data[row, col_left]).astype(int)'},
+    {"id": "rounding-the-sum-column-plus-disparity", "file": V, "old": 'col_right = col_left + np.rint(dataset_left["disparity_map"].data[row, col_left]).astype(int)', "new": 'col_right = np.rint(col_left + dataset_left["disparity_map"].data[row, col_left]).astype(int)'},
+    {"id": "eq-round-then-add-in-two-statements", "kind": "equiv", "file": V, "old": '            col_right = col_left + np.rint(dataset_left["disparity_map"].data[row, col_left]).astype(int)\n', "new": '            rounded = np.rint(dataset_left["disparity_map"].data[row, col_left]).astype(int)\n            col_right = col_left + rounded\n'},
     {"id": "swap-occ-mis", "edits": [(V, "cst.PANDORA_MSK_PIXEL_MISMATCH * comp", "cst.PANDORA_MSK_PIXEL_OCCLUSION__ * comp"), (V, "                cst.PANDORA_MSK_PIXEL_OCCLUSION * comp", "                cst.PANDORA_MSK_PIXEL_MISMATCH * comp"), (V, "cst.PANDORA_MSK_PIXEL_OCCLUSION__ * comp", "cst.PANDORA_MSK_PIXEL_OCCLUSION * comp")]},
     {"id": "drop-clamp", "file": V, "old": "            comp[comp > 1] = 1\n", "new": ""},
     {"id": "write-left-disp-through-view", "file": V, "old": 'left_disp = dataset_left["disparity_map"].data[row, col_left[inside_right]]', "new": 'left_disp = dataset_left["disparity_map"].data[row, :]'},
@@ -309,7 +317,7 @@ MUTANTS = [
     {"id": "order-swap-in-validation_run", "edits": [(SM, "        self.left_disparity = validation_.disparity_checking(self.left_disparity, self.right_disparity)\n        if self.right_disp_map", "        left_checked = validation_.disparity_checking(self.left_disparity.copy(deep=True), self.right_disparity)\n        if self.right_disp_map"), (SM, "            self.right_disparity = validation_.disparity_checking(self.right_disparity, self.left_disparity)\n", "            self.right_disparity = validation_.disparity_checking(self.right_disparity, self.left_disparity)\n            self.left_disparity = left_checked\n")]},
     {"id": "search-last-column-skipped", "file": V, "old": "inside_col_disp = np.where((index >= 0) & (index < nb_col))", "new": "inside_col_disp = np.where((index >= 0) & (index < nb_col - 1))"},
     {"id": "early-continue", "file": V, "old": "            invalid = np.abs(right_disp + left_disp) > self._threshold\n", "new": "            invalid = np.abs(right_disp + left_disp) > self._threshold\n            if not invalid.any():\n                continue\n"},
-    {"id": "correspondent-uses-right-map", "file": V, "old": 'col_right = col_left + dataset_left["disparity_map"].data[row, col_left]', "new": 'col_right = col_left + dataset_right["disparity_map"].data[row, col_left]'},
+    {"id": "correspondent-uses-right-map", "file": V, "old": 'col_right = col_left + np.rint(dataset_left["disparity_map"].data[row, col_left]).astype(int)', "new": 'col_right = col_left + np.rint(dataset_right["disparity_map"].data[row, col_left]).astype(int)'},
     {"id": "flags-on-other-dataset", "file": V, "old": 'dataset_left["validity_mask"].data[row, col_left[outside_right]] += cst.PANDORA_MSK_PIXEL_OCCLUSION', "new": 'dataset_right["validity_mask"].data[row, col_left[outside_right]] += cst.PANDORA_MSK_PIXEL_OCCLUSION'},
     {"id": "search-compares-plus-d", "file": V, "old": "-1 * disparity_range, (len(col_left[inside_right][invalid]), 1)", "new": "disparity_range, (len(col_left[inside_right][invalid]), 1)"},
     {"id": "no-mask-border", "file": V, "old": '        if dataset_left.attrs["offset_row_col"] > 0:\n            dataset_left["validity_mask"] = mask_border(dataset_left)\n\n        return dataset_left', "new": '        return dataset_left'},
